@@ -74,7 +74,8 @@ class C08(Property):
                        "probe.loss-before-block-begin",
                        "probe.eq-on-own-line",
                        "probe.dash-continuation-before-loss",
-                       "probe.other-configuration-used-first"]
+                       "probe.other-configuration-used-first",
+                       "probe.several-dash-continuations"]
 
     def expected(self, toks):
         """(expected tree with ("empty", line), sorted lines) or None."""
@@ -184,17 +185,26 @@ class C08(Property):
                            ).document()
         style = gen.Style(rng, "default")
         toks = gen.full_tokens(stmts, style)
-        if rng.random() < 0.15:
-            # a dash continuation earlier in the file: the default parser
+        if rng.random() < 0.2:
+            # dash continuations earlier in the file: the default parser
             # removes "-<line end><white space>" before lexing, which must
-            # not shift the line numbers it reports
-            nl = rng.choice(["\n", "\r\n"])
-            cont = gen.Tok(gen.STR, '"abc-' + nl + '      def"', "value", 0,
-                           -1, ("str", "abcdef"))
-            toks = [gen.Tok(gen.NAME, "DASHED", "name", 0, -1,
-                            ("str", "DASHED")),
-                    gen.Tok(gen.EQ, "=", "eq", 0, -1), cont] + toks
+            # not shift the line numbers it reports.  One to three of them,
+            # at the top and between top-level statements.
+            tops = [i for i, t in enumerate(toks)
+                    if t.depth == 0 and t.role in ("name", "begin")]
+            places = sorted(set([0] + [rng.choice(tops) for _ in range(
+                rng.choice([0, 1, 2]))])) if tops else [0]
+            for n_ins, at in enumerate(reversed(places)):
+                nl = rng.choice(["\n", "\r\n", "\n\n"])
+                sid = -1 - n_ins
+                cont = gen.Tok(gen.STR, '"abc-' + nl + '      def"', "value",
+                               0, sid, ("str", "abcdef"))
+                toks[at:at] = [gen.Tok(gen.NAME, "DASHED", "name", 0, sid,
+                                       ("str", "DASHED")),
+                               gen.Tok(gen.EQ, "=", "eq", 0, sid), cont]
             out.inc("probe.dash-continuation-before-loss")
+            if len(places) > 1:
+                out.inc("probe.several-dash-continuations")
         # assignments: stmt id -> indices of value tokens, name index
         assigns = {}
         order = []
